@@ -531,6 +531,10 @@ func vc24PayoutDirect(t *testing.T, out *vOut, r *vRand, st map[string]int) {
 	}
 	propZero := r.Intn(8) == 0
 	generate := r.Intn(6) == 0
+	if !proto.Payouts.Enabled && r.Intn(4) != 0 { // reach the later checks of the disabled branch
+		fees, stateFees = 0, 0
+		propZero = r.Intn(3) != 0
+	}
 
 	led := &vc24Ledger{accts: map[basics.Address]ledgercore.AccountData{sink: sinkAcct, proposer: propAcct}}
 	mk := func(payout uint64) *BlockEvaluator {
